@@ -149,3 +149,35 @@ if __name__ == "__main__":
                  "footer_rows_more_than_pages": footer_rows_mismatch(3), "footer_rows_fewer_than_pages": footer_rows_mismatch(-3)}.items():
         if not sel or k in sel:
             case(k, f)
+
+
+def generic(col, rows, lay, **kw):
+    def f():
+        data = W.encode_file([col], [{col.name: rows}], layout=lay)
+        got = read(data, **kw)[col.name]
+        got = [None if (x is pd.NA or (isinstance(x, float) and x != x) or x is None) else (x.item() if hasattr(x, "item") else x) for x in got]
+        return {"expected": rows, "read": got, "ok": got == rows}
+    return f
+
+
+if __name__ == "__main__":
+    more = {
+        "v1_bit_packed_levels": generic(W.ColumnSpec("x", "INT32", optional=True), [1, None, 3, 4, None, 6, 7, 8, None],
+                                        W.ChunkLayout(pages=[W.PageLayout(version=1, encoding="PLAIN", level_encoding="BIT_PACKED")])),
+        "v1_rle_boolean": generic(W.ColumnSpec("b", "BOOLEAN", optional=False), [True, False, True, True, False, False, True, False, True],
+                                  W.ChunkLayout(pages=[W.PageLayout(version=1, encoding="RLE")])),
+        "v2_delta_nulls": generic(W.ColumnSpec("x", "INT32", optional=True), [1, None, 3, 4, None, 6],
+                                  W.ChunkLayout(pages=[W.PageLayout(version=2, encoding="DELTA_BINARY_PACKED")])),
+        "v2_delta_int64": generic(W.ColumnSpec("x", "INT64", optional=False), [10, 20, 30, 40, 50, 60, 70],
+                                  W.ChunkLayout(pages=[W.PageLayout(version=2, encoding="DELTA_BINARY_PACKED")])),
+        "v2_empty_values_midchunk": generic(W.ColumnSpec("x", "DOUBLE", optional=True), [None, None, None, 1.5, 2.5],
+                                            W.ChunkLayout(pages=[W.PageLayout(n=2, version=2), W.PageLayout(n=None, version=2)])),
+        "v2_nullable_multipage": generic(W.ColumnSpec("x", "INT32", optional=True), [1, None, 3, 4, 5, 6, None, 8, 9, 10],
+                                         W.ChunkLayout(pages=[W.PageLayout(n=5, version=2), W.PageLayout(n=None, version=2)])),
+        "v2_dict_categorical_nulls": generic(W.ColumnSpec("x", "INT32", optional=True), [5, None, 5, 9, 7, 5, None, 9],
+                                             W.ChunkLayout(pages=[W.PageLayout(version=2, encoding="RLE_DICTIONARY")], dictionary="auto"),
+                                             categories=["x"]),
+    }
+    for k, f in more.items():
+        if not sel or k in sel:
+            case(k, f)
